@@ -54,16 +54,25 @@ pub fn run(args: &Args) -> i32 {
         {
             validating[x] = true;
         }
+        // message authenticity of the whole net: signed (Strict), or a random author per message (Permissive:
+        // unsigned messages with source and sequence number; signed tap messages are still fine)
+        let random_author = rng.chance(1, 4);
         for i in 0..n {
             let cfg = {
                 let mut b = base_config();
+                if random_author {
+                    b.validation_mode(gs::ValidationMode::Permissive);
+                }
                 b.mesh_n(6).mesh_n_low(4).mesh_n_high(12).mesh_outbound_min(2).flood_publish(rng.bool());
                 if validating[i] {
                     b.validate_messages();
                 }
                 b.build().expect("config")
             };
-            rig.add_gs(rng.next_u64() ^ i as u64, |k| gs::Behaviour::new_with_subscription_filter(gs::MessageAuthenticity::Signed(k.clone()), cfg, gs::AllowAllSubscriptionFilter {}).expect("behaviour"));
+            rig.add_gs(rng.next_u64() ^ i as u64, |k| {
+                let auth = if random_author { gs::MessageAuthenticity::RandomAuthor } else { gs::MessageAuthenticity::Signed(k.clone()) };
+                gs::Behaviour::new_with_subscription_filter(auth, cfg, gs::AllowAllSubscriptionFilter {}).expect("behaviour")
+            });
         }
         let mut tap_links: Vec<(usize, Vec<usize>)> = vec![];
         for _ in 0..taps {
@@ -356,7 +365,7 @@ pub fn run(args: &Args) -> i32 {
                 }
             }
         }
-        let wit = json!({"case": case_idx, "nodes": n, "taps": tap_links.iter().map(|(t, l)| format!("{t}->{l:?}")).collect::<Vec<_>>(), "validating": validating, "edges_whose_first_connection_was_replaced": replaced_edges, "edges": edges.iter().map(|(a, b)| format!("{a}-{b}")).collect::<Vec<_>>(),
+        let wit = json!({"case": case_idx, "nodes": n, "taps": tap_links.iter().map(|(t, l)| format!("{t}->{l:?}")).collect::<Vec<_>>(), "validating": validating, "random_author": random_author, "edges_whose_first_connection_was_replaced": replaced_edges, "edges": edges.iter().map(|(a, b)| format!("{a}-{b}")).collect::<Vec<_>>(),
             "publishers": publisher.iter().map(|(d, p)| format!("{}@{p}", String::from_utf8_lossy(d))).collect::<Vec<_>>(),
             "received": (0..n).map(|i| { let mut v: Vec<String> = received[i].iter().map(|(d, c)| format!("{}x{c}", String::from_utf8_lossy(d))).collect(); v.sort(); v }).collect::<Vec<_>>()});
         for (i, d) in &dup {
@@ -380,6 +389,7 @@ pub fn run(args: &Args) -> i32 {
         check.count("messages_published", publisher.len() as u64);
         check.count("application_deliveries", received.iter().map(|r| r.values().map(|c| *c as u64).sum::<u64>()).sum());
         check.count("cases_with_taps", (!tap_links.is_empty()) as u64);
+        check.count("cases_with_random_author", random_author as u64);
         check.count("edges_whose_first_connection_was_replaced", replaced_edges.len() as u64);
         check.count("cases_with_validating_nodes", validating.iter().any(|v| *v) as u64);
         check.count("application_validations_answered", validations);
